@@ -259,3 +259,73 @@ def rule_r24_selection(ctx, prog, rule="R24"):
     ctx.ob(rule, "get_from_sorted_mut/recursion-on-subview", ok, b.where(),
            "each of the %d recursive calls is on slice_axis_mut(self, ..k) or (k+1..) with k < len: strictly shorter" % len(rec_calls) if ok else
            "a recursive call is not on a proper sub-view of self", what="induction not well-founded")
+
+
+def rule_r25_bulk_selection(ctx, prog, rule="R25"):
+    """bulk selection writes, for every requested index, the element of that rank (C02, bulk form)"""
+    from .bulkselect import BulkProof
+    b = prog.find("sort::_get_many_from_sorted_mut_unchecked", required=False)
+    if b is None:
+        ctx.ob(rule, "bulk/recursive-routine", False, "src/sort.rs", "anchor missing: sort::_get_many_from_sorted_mut_unchecked", what="anchor missing")
+        return
+    part = prog.method("Sort1dExt", "partition_mut")
+    bp = BulkProof(prog, b, part.key)
+    if None in (bp.p_arr, bp.p_idx, bp.p_val):
+        ctx.ob(rule, "bulk/parameters", False, b.where(), "anchor missing: (array view, index slice, value slice) parameters", what="anchor missing")
+        return
+    try:
+        res = bp.prove()
+    except Exception as ex:   # path enumeration / modelling failure: fail closed
+        ctx.ob(rule, "bulk/paths", False, b.where(), "anchor not recognised: %r" % (ex,), what="anchor not recognised")
+        return
+    ctx.floor(rule, len({tuple(r["blocks"]) for r in res}), 3, "return paths of the recursive bulk routine")
+    ctx.extras["R25_paths"] = res
+    bad = [r for r in res if not r["ok"]]
+    ctx.ob(rule, "bulk/every-requested-rank", not bad, b.where(),
+           "for an arbitrary position t of the index list: on return values[t] = w with array[j] = w, everything before j ≤ w, everything "
+           "after j ≥ w (j = indexes[t] on entry) — on all %d (return path, case t<split / t=split / t>split) pairs, using the contracts of "
+           "partition_mut (R22) and binary_search and the induction hypothesis, whose precondition (strictly increasing, in bounds of the "
+           "sub-view after rebasing by exactly its start, aligned slices) is proved at both recursive calls" % len(res) if not bad else
+           "not established on the path through blocks %s (case %s): %s" % (bad[0]["blocks"], bad[0]["case"], bad[0]["why"]),
+           what="bulk selection postcondition")
+    # the wrapper establishes the precondition's shape: whole view, private copy of the index list, one value slot per index
+    w = prog.find("sort::get_many_from_sorted_mut_unchecked")
+    calls = [(bb, t) for bb, t in w.calls() if prog.local_callee_body(t) is not None and prog.local_callee_body(t).key == b.key]
+    ok = len(calls) == 1
+    detail = "exactly one call of the recursive routine expected, found %d" % len(calls)
+    if ok:
+        bb, t = calls[0]
+        a = [ds(x) for x in w.call_arg_exprs(bb)]
+        from .rules_layout import producer_chain
+
+        def root(e):
+            e = ds(e)
+            while isinstance(e, tuple) and e[0] == "call" and e[1] in ("deref_mut", "deref", "as_mut_slice", "as_mut", "borrow_mut", "view_mut", "reborrow") and e[3]:
+                e = ds(e[3][0])
+            return e
+        r0, r1, r2 = root(a[0]), root(a[1]), root(a[2])
+        ok0 = isinstance(r0, tuple) and r0[:2] == ("param", 1)
+        ok1 = isinstance(r1, tuple) and r1[0] == "call" and r1[1] in ("to_owned", "to_vec", "clone") and ds(r1[3][0])[:2] == ("param", 2)
+        ok2 = False
+        if isinstance(r2, tuple) and r2[0] == "call" and r2[1] in ("from_elem",) and len(r2[3]) == 2:
+            n = ds(r2[3][1])
+            ok2 = isinstance(n, tuple) and n[0] == "call" and n[1] == "len" and ds(n[3][0])[:2] == ("param", 2)
+        ok = ok0 and ok1 and ok2
+        detail = "whole array %s, private copy of the index list %s, values vector of indexes.len() slots %s" % (ok0, ok1, ok2)
+        # the returned map pairs indexes[t] with values[t] of that same vector
+        okz = False
+        for dd in w.reaching_defs(0, w.exits()[0], "term"):
+            f = ds(w.def_expr(0, dd))
+            if isinstance(f, tuple) and f[0] == "call" and f[1] == "collect":
+                z = ds(f[3][0])
+                if z[0] == "call" and z[1] == "zip":
+                    v = ds(z[3][1])
+                    while isinstance(v, tuple) and v[0] == "call" and v[1] in ("into_iter", "iter", "cloned", "drain") and v[3]:
+                        v = ds(v[3][0])
+                    okz = v == r2
+        ctx.ob(rule, "bulk/wrapper-pairs-values", okz, w.where(),
+               "the returned map zips the index list with the very values vector the recursive routine filled" if okz else
+               "the values zipped into the result are not the vector passed to the recursive routine", what="bulk result pairing")
+    ctx.ob(rule, "bulk/wrapper-establishes-shape", ok, w.where(),
+           ("the recursive routine is entered with the whole array, a private copy of the (sorted, deduplicated, in-bounds: R12/R5) index list "
+            "and one value slot per index") if ok else "not recognised: " + detail, what="bulk precondition")
